@@ -166,17 +166,24 @@ func c07(r *core.Run) {
 			return cmpGuard(p, msgField(p, h, "Expires"), func(pr core.Prov) bool { return len(pr.DataAtoms()) == 0 }, "<=", "<")
 		}, "Cmp(msg.Expires > 0)=false")
 		// R5
-		var planCall ssa.CallInstruction
-		for _, e := range p.Effects(h.Fn) {
-			if c, ok := e.Instr.(ssa.CallInstruction); ok && effHas(e, "Set", stPay) {
-				planCall = c
-			}
-		}
+		planUnit, planCall := findOpSite(p, h, "Set", stPay)
 		if planCall == nil {
 			r.Violation("C07/R5", h.Key()+":charge", p.Pos(h.Fn.Pos()), "posting a plan-paid file never charges the plan")
 		} else {
+			// in the handler: every committing plan-paid path reaches the charge (directly or through the helper that holds it)
+			var topCall ssa.Instruction = planCall
+			if planUnit != h.Fn {
+				for _, e := range p.Effects(h.Fn) {
+					if effHas(e, "Set", stPay) {
+						topCall = e.Instr
+					}
+				}
+			}
 			payOnce := p.PassEdges(h.Fn, cmpGuard(p, msgField(p, h, "Expires"), func(pr core.Prov) bool { return len(pr.DataAtoms()) == 0 }, ">", ">="))
-			ret := p.BypassExistsAvoiding(h.Fn, h.Fn.Blocks[0].Instrs[0], planCall, false, payOnce)
+			ret := p.BypassExistsAvoiding(h.Fn, h.Fn.Blocks[0].Instrs[0], topCall, false, payOnce)
+			if ret == nil && planUnit != h.Fn {
+				ret = p.BypassExists(planUnit, planUnit.Blocks[0].Instrs[0], planCall, false)
+			}
 			r.Check(ret == nil, "C07/R5", h.Key()+":charge-on-every-plan-path", p.InstrPos(planCall), "every committing plan-paid path writes the plan record", "a committing path stores a plan-paid file without charging the plan")
 			args := dataArgs(planCall)
 			rec := args[len(args)-1]
